@@ -38,7 +38,8 @@ Inductive fid :=
 Record label := { l_kind : akind; l_who : who; l_file : fid }.
 (* what an access may answer while the process is alive, besides success and refusal:
    nothing else / also ENOENT, ESRCH (file may be gone) / also EINVAL (not a link) *)
-Inductive oclass := Strict | MayVanish | MayVanishOrInval.
+Inductive oclass := Strict | MayVanish | MayVanishOrInval
+| DirSurvives.   (* /proc/<pid> itself: may still answer although the process is gone (half-removed, see w_half) *)
 
 Inductive errno := ENOENT | ESRCH | EACCES | EPERM | EINVAL.
 (* class of a link target: absolute regular file / the same with a " (deleted)" suffix / absolute, not a regular
@@ -112,6 +113,9 @@ Record world := {
                                   (* answer without a fault: which pids are gone, kind, whose, file, current entry *)
   w_self   : string;                                  (* the object's pid as text (resolves [Any]) *)
   w_vanish : option nat;                              (* V: the process is removed just before this access index *)
+  w_half   : bool;                                    (* V': half-removed (upstream issue 2418): from that index on every path
+                                                         strictly below /proc/<pid> reports ENOENT/ESRCH while /proc/<pid>
+                                                         itself still answers and the pid is still listed *)
   w_deny   : nat -> bool;                             (* D: these access indexes are refused (EACCES/EPERM) *)
   w_ovanish : string -> option nat;                   (* VO: another process is removed just before this index *)
   w_param  : nat -> bool;
@@ -125,20 +129,28 @@ Definition ogone_at (w : world) (p : string) (i : nat) : bool :=
   match w_ovanish w p with Some v => Nat.leb v i | None => false end.
 Definition gonef (w : world) (i : nat) (p : string) : bool :=
   if String.eqb p (w_self w) then gone_at w i else ogone_at w p i.
+(* ... and no longer listed in /proc *)
+Definition unlisted (w : world) (i : nat) (p : string) : bool :=
+  if String.eqb p (w_self w) then gone_at w i && negb (w_half w) else ogone_at w p i.
+Definition is_piddir (l : label) : bool := match l_file l with FDir => true | _ => false end.
 Definition rwho (w : world) (l : label) (cur : string) : who :=
   match l_who l with Any => if String.eqb cur (w_self w) then Self else Other | x => x end.
 Definition vanish_errno (k : akind) : errno := match k with KRead | KSys => ESRCH | _ => ENOENT end.
 Definition is_global (x : who) := match x with Global => true | _ => false end.
 (* does the access fail because the process it belongs to is gone ([Other]: the process named by the current
    entry -- which, in a walk over all pids, may be the object's own) *)
-Definition vanished (w : world) (r : who) (cur : string) (i : nat) : bool :=
-  match r with Self => gone_at w i | Other => gonef w i cur | _ => false end.
+Definition vanished (w : world) (l : label) (r : who) (cur : string) (i : nat) : bool :=
+  match r with
+  | Self => gone_at w i && negb (w_half w && is_piddir l)
+  | Other => gonef w i cur
+  | _ => false
+  end.
 
 Definition answer (w : world) (i : nat) (l : label) (cur : string) : res :=
   let r := rwho w l cur in
-  if vanished w r cur i then Err (vanish_errno (l_kind l))
+  if vanished w l r cur i then Err (vanish_errno (l_kind l))
   else if negb (is_global r) && w_deny w i then Err EACCES
-  else w_base w (gonef w i) (l_kind l) r (l_file l) cur.
+  else w_base w (unlisted w i) (l_kind l) r (l_file l) cur.
 
 (* ------------------------------------------------------------------ interpreter *)
 Record st := {
@@ -341,25 +353,22 @@ Definition rl (f del : fid) :=
          link_in [LSock] F_SOCK_THIS;
          If (TFlag F_DEL) (stat_strict del Skip) Skip ].
 
-(* _readlink(path, fallback=''): on ENOENT/ESRCH probe /proc/<pid> with os.lstat (a refusal of the probe
-   propagates to wrap_exceptions); still there: zombie check, fallback; else re-raise *)
-Definition readlink_fb (f del : fid) :=
+(* _readlink(path, fallback=''): on ENOENT/ESRCH probe [probe] with os.lstat -- /proc/<pid>/stat since commit 1195393:
+   during teardown the directory may outlive its entries -- ([hs]: which errors of the probe mean "not there"; any
+   other, e.g. a refusal, propagates to wrap_exceptions); still there: zombie check, fallback; else re-raise *)
+Definition readlink_fb_with (probe : fid) (hs : list (hpat * prog)) (f del : fid) :=
   Call (Seq (SetFlag F_FALLBACK false)
     (Try (rl f del)
        (handlers [(HFnfEsrch,
-          Seq (Try (acc KLstat Self FDir) (handlers [(HFnfEsrch, Skip)])
+          Seq (Try (acc KLstat Self probe) (handlers hs)
                    (Seq (raise_if_zombie Self FStat) (Seq (SetFlag F_FALLBACK true) Ret)))
               Reraise)])
        Ret)).
-(* the code before commit 4ee76b0: os.path.lexists swallowed every OSError of the probe *)
-Definition legacy_readlink_fb (f del : fid) :=
-  Call (Seq (SetFlag F_FALLBACK false)
-    (Try (rl f del)
-       (handlers [(HFnfEsrch,
-          Seq (Try (acc KLstat Self FDir) (handlers [(HOSError, Skip)])
-                   (Seq (raise_if_zombie Self FStat) (Seq (SetFlag F_FALLBACK true) Ret)))
-              Reraise)])
-       Ret)).
+Definition readlink_fb := readlink_fb_with FStat [(HFnfEsrch, Skip)].
+(* the code before commit 1195393: the probe was /proc/<pid> itself *)
+Definition legacy_dir_readlink_fb := readlink_fb_with FDir [(HFnfEsrch, Skip)].
+(* the code before commit 4ee76b0: os.path.lexists('/proc/<pid>') swallowed every OSError of the probe *)
+Definition legacy_readlink_fb := readlink_fb_with FDir [(HOSError, Skip)].
 
 (* ---- _pslinux.Process methods *)
 Definition i_stat_based := Call (wrapped parse_stat).       (* name status ppid cpu_times cpu_num terminal create_time *)
@@ -368,6 +377,7 @@ Definition i_exe := Call (wrapped (readlink_fb FExe FExeDel)).
 Definition i_cwd := Call (wrapped (readlink_fb FCwd FCwdDel)).
 Definition legacy_i_exe := Call (wrapped (legacy_readlink_fb FExe FExeDel)).
 Definition legacy_i_cwd := Call (wrapped (legacy_readlink_fb FCwd FCwdDel)).
+Definition legacy_dir_i_cwd := Call (wrapped (legacy_dir_readlink_fb FCwd FCwdDel)).
 Definition i_cmdline :=
   Call (wrapped (seqs [acc KOpen Self FCmdline; acc KRead Self FCmdline;
                        If TEmpty (seqs [SetFlag F_NOCMD true; raise_if_zombie Self FStat; Ret])
